@@ -70,6 +70,8 @@ pub enum KOp {
     FinReset(u8),
     FinFixedReset(u8),
     Fin(u8),
+    /// Clone::clone_from into this instance from the other live one
+    CloneFrom(u8),
 }
 impl KOp {
     fn json(&self) -> Value {
@@ -80,6 +82,7 @@ impl KOp {
             KOp::FinReset(i) => json!({"op":"finalize_reset","inst":i}),
             KOp::FinFixedReset(i) => json!({"op":"finalize_fixed_reset","inst":i}),
             KOp::Fin(i) => json!({"op":"finalize","inst":i}),
+            KOp::CloneFrom(i) => json!({"op":"clone_from","inst":i}),
         }
     }
 }
@@ -149,6 +152,10 @@ impl<H: HK> Sys for KSys<H> {
         if self.allow_clone && s.insts[0].is_some() && s.insts[1].is_none() {
             v.push(KOp::CloneOp);
         }
+        if s.insts[0].is_some() && s.insts[1].is_some() {
+            v.push(KOp::CloneFrom(0));
+            v.push(KOp::CloneFrom(1));
+        }
         v
     }
     fn step(&self, s: &KSt<H>, a: &KOp) -> Step<KSt<H>> {
@@ -178,7 +185,8 @@ impl<H: HK> Sys for KSys<H> {
                 }
                 KOp::CloneOp => {
                     let a0 = n.insts[0].as_ref().unwrap();
-                    let m = MSt { line: 1, fork: Some(a0.m.len), len: a0.m.len };
+                    // instance 0 may itself be a copy made by clone_from: then the new clone is an exact copy of its model too
+                    let m = if a0.m.line == 0 && a0.m.fork.is_none() { MSt { line: 1, fork: Some(a0.m.len), len: a0.m.len } } else { a0.m };
                     match self.seal(a0.d.clone(), m, "clone") {
                         Ok(x) => n.insts[1] = Some(x),
                         Err(b) => return b,
@@ -205,6 +213,17 @@ impl<H: HK> Sys for KSys<H> {
                         Err(b) => return b,
                     }
                 }
+                KOp::CloneFrom(i) => {
+                    let src = n.insts[1 - i as usize].as_ref().unwrap().clone();
+                    let it = n.insts[i as usize].take().unwrap();
+                    let mut d = it.d;
+                    d.clone_from(&src.d);
+                    // the destination is now a copy of the source: same byte line, same absorbed bytes
+                    match self.seal(d, src.m, "clone_from") {
+                        Ok(x) => n.insts[i as usize] = Some(x),
+                        Err(b) => return b,
+                    }
+                }
                 KOp::Fin(i) => {
                     let it = n.insts[i as usize].take().unwrap();
                     let got = it.d.finalize().to_vec();
@@ -221,7 +240,7 @@ impl<H: HK> Sys for KSys<H> {
                 }
             }
             // an operation on one instance must not change what the other one produces
-            if let KOp::Update(i, _) | KOp::Reset(i) | KOp::FinReset(i) | KOp::FinFixedReset(i) = *a {
+            if let KOp::Update(i, _) | KOp::Reset(i) | KOp::FinReset(i) | KOp::FinFixedReset(i) | KOp::CloneFrom(i) = *a {
                 let o = 1 - i as usize;
                 if let Some(other) = n.insts[o].take() {
                     match self.seal(other.d, other.m, "operation-on-the-other-instance") {
